@@ -141,6 +141,25 @@ class Approx:
         return abs(Fraction(lib) - self.x) <= Fraction(self.terms, 2) + Fraction(1, 10 ** 9)
 
 
+def pair_expectations(sensors, data):
+    """'<x>_label' is the table lookup of the code '<x>' OF THE SAME RESULT, whatever class implements it.
+    -> {label id: expected text} for plain enumerations; bitmap labels are checked from the registers elsewhere."""
+    ids = {sn.id_: sn for sn in sensors}
+    out = {}
+    for sn in sensors:
+        if not sn.id_.endswith("_label"):
+            continue
+        base = sn.id_[:-6]
+        labels = getattr(sn, "_labels", None)
+        if labels is None or base not in ids or base not in data or sn.id_ not in data:
+            continue
+        if type(sn).__name__.startswith("EnumBitmap") or type(ids[base]).__name__ in ("Long",):
+            continue
+        code = data[base]
+        out[sn.id_] = labels.get(code) if code is not None else labels.get(0)
+    return out
+
+
 def derived_expectations(dev, family, sensors, goodwe_const):
     """id -> expected (exact value | Approx | str) for label/bitmap/calculated sensors, from the registers."""
     def rb(addr, n):
